@@ -436,7 +436,7 @@ def _checktag_stream(ctx):
 def _check_tag_source(ctx):
     """TJ.Props.C03Gen: the regenerated term of tinyjambu_aead_check_tag computes the model's checkTag for all tags, lengths and contents"""
     import taint
-    ok, stats = taint.regenerate(ctx, ('TJ.Props.C03Gen', 'TJ.Props.C01Gen'))
+    ok, stats = taint.regenerate(ctx, ('TJ.Props.C03Gen', 'TJ.Props.C01Gen') + (('TJ.Props.C08Gen',) if ctx.pid == 'C04' else ()))
     ctx.extra_cov['minic'] = {k: stats.get(k) for k in ('functions', 'translated', 'errors', 'build_ok')}
     if stats.get('errors'): ctx.broken_proofs.append('tools/c2lean.py cannot translate the current sources: ' + '; '.join(stats['errors'][:3]))
     elif not ok: ctx.broken_proofs.append('TJ.Props.C03Gen / C01Gen (regenerated tinyjambu_aead_check_tag = model checkTag; regenerated tinyjambu_*_aead_decrypt = model aeadDecrypt) no longer check: ' + re.sub(r'\s+', ' ', stats.get('build_log_tail', ''))[-600:])
@@ -446,20 +446,20 @@ def check_C03(ctx):
     _tamper(ctx, 'aead'); _checktag_stream(ctx)
 
 def check_C04(ctx):
-    ctx.build(); _check_tag_source(ctx); ctx.lean(extra_modules=['TJ.Props.C03Gen', 'TJ.Props.C01Gen'])
+    ctx.build(); _check_tag_source(ctx); ctx.lean(extra_modules=['TJ.Props.C03Gen', 'TJ.Props.C01Gen', 'TJ.Props.C08Gen'])
     _tamper(ctx, 'aead'); _tamper(ctx, 'siv'); _checktag_stream(ctx)
 
 def _siv_source(ctx):
     """TJ.Props.C09Gen: the terms REGENERATED from src/tinyjambu-{128,192,256}-siv.c (siv_encrypt with setup, absorb, generate_tag, memcpy, the permutations)
     write Spec.SIV.encrypt and mlen + 8 for every input"""
     import taint
-    ok, stats = taint.regenerate(ctx, ('TJ.Props.C09Gen',))
+    ok, stats = taint.regenerate(ctx, ('TJ.Props.C09Gen', 'TJ.Props.C08Gen'))
     ctx.extra_cov['minic'] = {k: stats.get(k) for k in ('functions', 'translated', 'errors', 'build_ok')}
     if stats.get('errors'): ctx.broken_proofs.append('tools/c2lean.py cannot translate the current sources: ' + '; '.join(stats['errors'][:3]))
-    elif not ok: ctx.broken_proofs.append('TJ.Props.C09Gen (regenerated tinyjambu_*_siv_encrypt = documented two-pass construction) no longer checks: ' + re.sub(r'\s+', ' ', stats.get('build_log_tail', ''))[-600:])
+    elif not ok: ctx.broken_proofs.append('TJ.Props.C09Gen / C08Gen (regenerated tinyjambu_*_siv_encrypt = documented two-pass construction; regenerated tinyjambu_*_siv_decrypt = model sivDecrypt) no longer check: ' + re.sub(r'\s+', ' ', stats.get('build_log_tail', ''))[-600:])
 
 def check_C08(ctx):
-    ctx.build(); _siv_source(ctx); ctx.lean(extra_modules=['TJ.Props.C09Gen'])
+    ctx.build(); _siv_source(ctx); ctx.lean(extra_modules=['TJ.Props.C09Gen', 'TJ.Props.C08Gen'])
     _roundtrip(ctx, 'siv'); _tamper(ctx, 'siv')
     if ctx.tier == 'thorough': _matrix(ctx, 'siv')
 
